@@ -16,7 +16,9 @@ def parseKind : String → Option Kind
   | "encrypt0" => some .encrypt0 | "encrypt" => some .encrypt | _ => none
 
 def parseMode : String → Option PMode
-  | "raw" => some .raw | "rawmsg" => some .rawMsg | "typed" => some .typed | _ => none
+  | "raw" => some .raw | "rawmsg" => some .rawMsg | "typed" => some .typed
+  | "gomap" => some .typed     -- a plain Go map payload: same bytes as the CoseMap with these entries (sorted, shortest)
+  | _ => none
 
 def keyView (k : Key) : KeyView := ⟨alg k, kid k, baseIV k⟩
 
@@ -80,13 +82,14 @@ def joinHex (l : List Bytes) : String := if l.isEmpty then "none" else String.in
 /-- the harness's deterministic recipients (see `mkRecipients` in ops_msg.go) -/
 def mkRecipients (spec : String) : List Recip :=
   let n := (spec.toList.getD 1 '0').toNat - '0'.toNat
-  let nested := spec.endsWith "s"
+  let nilU := spec.endsWith "n"
+  let nested := spec.endsWith "s" || nilU
   (List.range n).map (fun i =>
     let prot : CMap := if i == 1 then [] else [(Msg.lbl 1, .int .int (-6))]
     let ct : Bytes := if i == 1 then [1, 2, 3] else []
-    let r0 : Recip0 := ⟨prot, some [(Msg.lbl 4, .bytes [UInt8.ofNat (0x30 + i)])], some ct⟩
+    let r0 : Recip0 := ⟨prot, if nilU then none else some [(Msg.lbl 4, .bytes [UInt8.ofNat (0x30 + i)])], some ct⟩
     let subs : List Recip0 := if i == 0 && nested then
-      [⟨[(Msg.lbl 1, .int .int (-3))], some [(Label.text [0x78], .str [0x79])], some [9]⟩] else []
+      [⟨[(Msg.lbl 1, .int .int (-3))], if nilU then none else some [(Label.text [0x78], .str [0x79])], some [9]⟩] else []
     ⟨r0, subs⟩)
 
 def recipsDump (rs : List Recip) : String :=
